@@ -204,13 +204,19 @@ def run(ctx):
                             'gen_params histories in one process vs fresh processes; .json graphs with arbitrary node ids']
     rng = ctx.rng
     n = 0
-    for _ in range(ctx.n(120, 1200)):
-        ff = ffgen.gen_ff(rng, uniform_nrexcl=rng.choice([1, None]))
-        g = ffgen.gen_resgraph(rng, ff)
+    corpus = [c for _, c in core.corpus_cases('C13')]
+    for k in range(len(corpus) + ctx.n(120, 1200)):
+        if k < len(corpus):
+            ff, g, g2, ff2 = corpus[k]['ff'], corpus[k]['graph'], corpus[k]['graph2'], corpus[k].get('ff2') or corpus[k]['ff']
+            for gg in (g, g2):
+                gg['edges'] = [tuple(e) for e in gg['edges']]
+        else:
+            ff = ffgen.gen_ff(rng, uniform_nrexcl=rng.choice([1, None]))
+            g = ffgen.gen_resgraph(rng, ff)
+            g2 = ffgen.permute_graph(rng, g)
+            ff2 = reorder_ff(rng, ff)
         text = ffgen.render_ff(ff)
         base = ffgen.run_pipeline(text, g)
-        g2 = ffgen.permute_graph(rng, g)
-        ff2 = reorder_ff(rng, ff)
         rel = ffgen.run_pipeline(text, g2)
         reo = ffgen.run_pipeline(ffgen.render_ff(ff2), g)
         applied = 'links' in base and sum(len(v) for v in base['links']['inters'].values()) > sum(len(v) for v in base['map']['inters'].values())
